@@ -54,7 +54,8 @@ Inductive op :=
 | AddChunk (id : Z) (d : option (list Z))
 | SetLoopCount (n : Z)
 | SetBackgroundColor (c : Z)
-| SetCanvasSize (w h : Z).
+| SetCanvasSize (w h : Z)
+| AssembleCall.   (* Muxer.Assemble(w) in the middle of a history: reads the state, never changes it *)
 
 (** what a call returns: nil or an error (setters without result: always nil) *)
 Inductive out := OutOk | OutErr.
@@ -107,6 +108,7 @@ Definition step (m : mstate) (o : op) : mstate * out :=
     let w := if w >? MaxCanvasSize then MaxCanvasSize else w in
     let h := if h >? MaxCanvasSize then MaxCanvasSize else h in
     (mkm (m_frames m) (m_icc m) (m_exif m) (m_xmp m) (m_bg m) (m_loop m) w h, OutOk)
+  | AssembleCall => (m, OutOk)   (* its own result is [assemble] of the state, see extract/c14/run.ml *)
   end.
 
 Definition run (ops : list op) : mstate := fold_left (fun m o => fst (step m o)) ops minit.
